@@ -202,6 +202,33 @@ def run_input(ctx, text, source, depth_known=None, tmpdir=None, pyg_every=20, nv
         execute(ctx, text, rng.choice(('Html', 'Markdown', 'LaTeX')), {}, 'file', source, depth_known, tmpdir)
 
 
+STAIR_TOKENS = ['-', '*', '+', '1.', '1)', '2.', '>', '#', '```', '[a]:', '|', '<div>', 'a']
+
+
+def staircase_sweep(ctx, tmpdir, maxlen, depth):
+    """Systematic search for work that multiplies per nesting level: every sequence of up to ``maxlen`` block markers is
+    repeated on ``depth`` lines, each line indented ``step`` columns more than the previous one (step 0..4).  A parser that
+    re-reads a nested container (as List.read did for a list followed by a differently marked list) doubles its work per
+    level and hits the CPU watchdog long before the input reaches 1 KB."""
+    import itertools
+    idx = 0
+    for n in range(1, maxlen + 1):
+        for seq in itertools.product(STAIR_TOKENS, repeat=n):
+            if seq[-1] == 'a' and n > 1 and seq[-2] == 'a':
+                continue
+            for step in (0, 1, 2, 3, 4):
+                idx += 1
+                if idx % ctx.nshards != ctx.shard:
+                    continue
+                head = ' '.join(seq)
+                lines = [' ' * (step * k) + head + ' a' for k in range(depth)]
+                text = '\n'.join(lines)[:4096] + '\n'
+                execute(ctx, text, 'Html', {}, 'str', 'staircase-sweep', depth_known=depth, tmpdir=tmpdir)
+                if idx % 7 == 0:
+                    execute(ctx, text, 'Markdown', {}, 'str', 'staircase-sweep', depth_known=depth, tmpdir=tmpdir)
+    ctx.count('staircase-sweep', 'documents', idx // ctx.nshards)
+
+
 def plan(tier):
     if tier == 'quick':
         return {'shards': 8, 'budget_s': 40}
@@ -209,8 +236,8 @@ def plan(tier):
 
 
 SIZES = {
-    'quick': dict(mixed=2600, payload=1500, gen=700, enum_len=3, enum2_len=2, stress_limit=4096, big=40),
-    'thorough': dict(mixed=60000, payload=30000, gen=15000, enum_len=4, enum2_len=3, stress_limit=4096, big=600),
+    'quick': dict(mixed=2600, payload=1500, nested=1200, gen=700, enum_len=3, enum2_len=2, stress_limit=4096, big=40),
+    'thorough': dict(mixed=60000, payload=30000, nested=40000, gen=15000, enum_len=4, enum2_len=3, stress_limit=4096, big=600),
 }
 
 
@@ -266,6 +293,13 @@ def run(ctx):
             if ctx.out_of_time():
                 break
             run_input(ctx, workloads.payload_doc(rng), 'payload', tmpdir=tmpdir)
+        # systematic staircases (work that multiplies per nesting level)
+        staircase_sweep(ctx, tmpdir, 2 if ctx.tier == 'quick' else 3, 28)
+        # deeply nested random containers (staircases of mixed list / quote markers)
+        for k in range(sz['nested'] // ctx.nshards):
+            if ctx.out_of_time():
+                break
+            run_input(ctx, workloads.nested_soup(rng), 'nested-soup', tmpdir=tmpdir, nvariants=1)
         # S2 + S4 random
         for k in range(sz['mixed'] // ctx.nshards):
             if ctx.out_of_time():
@@ -315,6 +349,7 @@ def finalize(m, tier):
                 '= distinct input texts containing at least one Markdown-significant character',
         'inconclusive': inconclusive,
         'extra': {'outcomes': m.c('outcome'), 'executions_by_renderer_config': len(rend),
+                  'staircase_sweep': m.c('staircase-sweep'),
                   'slowest_executions(cpu_s,renderer,source,len,text)': sorted([x for e in m.extra for x in e.get('slowest', [])], reverse=True)[:8]},
     }
 
